@@ -165,6 +165,62 @@ def scan_iterator_macro(fname, s, defs):
             defs[name] = (fname, ["T"], [("0", "(TUnknown \"new_iterator! has an unexpected shape\")")])
 
 # ----------------------------------------------------------------------------------------
+# iterator step closures (new_iterator! invocations)
+# ----------------------------------------------------------------------------------------
+FIELDS = {"parent": "Fparent", "previous_sibling": "Fprev", "next_sibling": "Fnext", "first_child": "Ffirst", "last_child": "Flast"}
+
+def link_expr(src):
+    """|v| v.FIELD   or   |v| v.FIELD.or(v.FIELD)   ->  a term of IterModel.lexpr; anything else: LUnknown"""
+    t = re.sub(r"\s+", "", src)
+    m = re.match(r"^\|(\w+)\|(.*)$", t)
+    if not m: return "(LUnknown %s)" % coq_str(src.strip()[:60])
+    v, body = m.group(1), m.group(2)
+    m1 = re.match(r"^%s\.(\w+)$" % v, body)
+    if m1 and m1.group(1) in FIELDS: return "(LField %s)" % FIELDS[m1.group(1)]
+    m2 = re.match(r"^%s\.(\w+)\.or\(%s\.(\w+)\)$" % (v, v), body)
+    if m2 and m2.group(1) in FIELDS and m2.group(2) in FIELDS:
+        return "(LOr %s %s)" % (FIELDS[m2.group(1)], FIELDS[m2.group(2)])
+    return "(LUnknown %s)" % coq_str(src.strip()[:60])
+
+def start_expr(src):
+    """the `new =` closure of Children / ReverseChildren: which link(s) of the start node seed the iterator"""
+    t = re.sub(r"\s+", "", src)
+    m = re.match(r"^\|(\w+),(\w+)\|DoubleEndedIter::new\(\1,\1\[\2\]\.(\w+),\1\[\2\]\.(\w+)\)$", t)
+    if m and m.group(3) in FIELDS and m.group(4) in FIELDS:
+        return "(SBoth %s %s)" % (FIELDS[m.group(3)], FIELDS[m.group(4)])
+    m = re.match(r"^\|(\w+),(\w+)\|Iter::new\(\1,\1\[\2\]\.(\w+)\)$", t)
+    if m and m.group(3) in FIELDS:
+        return "(SOne %s)" % FIELDS[m.group(3)]
+    if re.match(r"^\|(\w+),(\w+)\|\{", t):
+        return "SBlock"                                   # a block: modelled by hand (de_new), checked dynamically
+    return "(SUnknown %s)" % coq_str(src.strip()[:60])
+
+def scan_iterators(s, iters):
+    m = re.search(r"macro_rules!\s*new_iterator\s*\{", s)
+    if not m: return
+    j = match_close(s, m.end() - 1, "{", "}")
+    for im in re.finditer(r"\bnew_iterator!\s*\(", s):
+        if m.start() < im.start() < j: continue
+        k = match_close(s, im.end() - 1, "(", ")")
+        args = re.sub(r"#\[(?:[^\[\]]|\[[^\]]*\])*\]", "", s[im.end():k], flags=re.S)
+        # key = value pairs at bracket depth 0 (closure parameter lists `|a, b|` contain commas)
+        depth, marks = 0, []
+        for mm in re.finditer(r"[(\[{<]|[)\]}>]|\b(new|next_back|next|inner)\s*=(?!=)", args):
+            t = mm.group(0)
+            if t in "([{": depth += 1
+            elif t in ")]}": depth -= 1
+            elif t in "<>": pass
+            elif depth == 0: marks.append((mm.start(), mm.end(), mm.group(1)))
+        name = args.split(",", 1)[0].strip()
+        kv = {}
+        for i, (st, en, key) in enumerate(marks):
+            end = marks[i + 1][0] if i + 1 < len(marks) else len(args)
+            kv[key] = args[en:end].strip().rstrip(",").strip()
+        iters.append((name, start_expr(kv["new"]) if "new" in kv else "SSelf",
+                      link_expr(kv["next"]) if "next" in kv else "(LUnknown \"missing\")",
+                      ("(Some %s)" % link_expr(kv["next_back"])) if "next_back" in kv else "None"))
+
+# ----------------------------------------------------------------------------------------
 # cfg gates
 # ----------------------------------------------------------------------------------------
 def classify_item(s, pos, depth_ctx):
@@ -235,7 +291,7 @@ def scan_cfg(fname, s, gates):
 
 def main():
     os.makedirs(OUT, exist_ok=True)
-    defs, gates = {}, []
+    defs, gates, iters = {}, [], []
     scan = dict(forbid_unsafe=False, unsafe_tokens=0, interior=[])
     files = sorted(f for f in os.listdir(SRC) if f.endswith(".rs"))
     for f in files:
@@ -254,6 +310,7 @@ def main():
             scan["interior"].append((f, w))
         scan_types(f, s_nt, defs)
         scan_iterator_macro(f, s_nt, defs)
+        if f == "traverse.rs": scan_iterators(s_nt, iters)
         scan_cfg(f, s_nt, gates)
     cargo = open(os.path.join(REPO, "indextree", "Cargo.toml")).read()
     feats = []
@@ -285,6 +342,12 @@ def main():
                            for (f, ln, pred, kind, detail) in gates))
         o.write("\n].\n\nDefinition features : list (string * list string) := [\n")
         o.write(";\n".join("  (%s, [%s])" % (coq_str(n), "; ".join(coq_str(d) for d in deps)) for n, deps in feats))
+        o.write("\n].\n")
+    with open(os.path.join(OUT, "GenIters.v"), "w") as o:
+        o.write("(* GENERATED by tools/translate.py from %s/traverse.rs — do not edit *)\n" % SRC)
+        o.write("From IT Require Import IterModel.\nOpen Scope string_scope.\n\n")
+        o.write("Definition iters : list iterdef := [\n")
+        o.write(";\n".join("  mkIter %s %s %s %s" % (coq_str(n), st, nx, nb) for (n, st, nx, nb) in iters))
         o.write("\n].\n")
     return 0
 
